@@ -356,6 +356,7 @@ def run(ctx):
         ok = F.is_wellformed(Y, n) and max(G.shape[2] for G in Y) <= r and info['stop'] in ('nswp', 'e', 'e_vld') and info['nswp'] <= 2
         ctx.check(ok, 'als:adaptive', 'rank-adaptive ALS: ranks %s (cap %d), stop %s' % ([G.shape[2] for G in Y] if isinstance(Y, list) else None, r, info.get('stop')))
     check_als_func(ctx, rng, quick)
+    check_shared_info(ctx, rng)
     validate_repo_tests(ctx)
 
 
@@ -377,6 +378,41 @@ def blackbox_als(ctx, I, y, Y0, nswp, lamb, w, t):
     if ok:
         # schedule of a sweep: cores 0 .. d-2 left to right, then d-1 .. 1 right to left: core 1 is updated last
         ctx.check(nswp == 0 or slice_gradients([np.asarray(G) for G in Y], I, y, w, lamb, 1) <= 1e-7, 'als:last-core', 'core 1 (updated last) is not the minimiser given the other cores')
+
+
+def check_shared_info(ctx, rng):
+    """histories: info reports THIS call.  A call that reuses the caller's info dictionary of an earlier call, or relies on
+    the default dictionary like an earlier call did, must give the result and the report of the same call on a fresh one."""
+    I, y, Y0, w, lamb = random_problem(rng, None)
+    d = len(Y0)
+    X = rng.uniform(-1, 1, size=(60, d))
+    yx = np.cos(X).sum(axis=1)
+    A0 = teneva.rand([3] * d, 2, seed=4)
+    plans = [('als', [dict(nswp=1), dict(nswp=3), dict(nswp=2, e=0.5)]), ('als', [dict(nswp=4, e=0.9), dict(nswp=2)]),
+             ('als_func', [dict(nswp=1), dict(nswp=3)]), ('als_func', [dict(nswp=3, e=0.9), dict(nswp=2)])]
+    for mode in ('shared', 'default'):
+        for p, (fn, plan) in enumerate(plans):
+            shared = {}
+            for j, kw in enumerate(plan):
+                def call(info):
+                    extra = {} if info is None else dict(info=info)
+                    if fn == 'als':
+                        return teneva.als(I, y, [G.copy() for G in Y0], lamb=lamb, **kw, **extra)
+                    return teneva.als_func(X, yx, [G.copy() for G in A0], **kw, **extra)
+                fresh = {}
+                Yf = call(fresh)
+                Ys = call(shared if mode == 'shared' else None)
+                if mode == 'default':
+                    import inspect
+                    shared = inspect.signature(getattr(teneva, fn)).parameters['info'].default
+                    if not isinstance(shared, dict):
+                        break
+                ctx.case(key=('info-history', mode, p, j), nontrivial=j > 0)
+                same = close_tt(Yf, Ys, 0.) if all(a.shape == b.shape for a, b in zip(Yf, Ys)) else False
+                keys = ('nswp', 'stop')
+                ctx.check(same and all(fresh.get(k_) == shared.get(k_) for k_ in keys), 'als:history',
+                          '%s call %d of plan %s (%s info dictionary): result / report differ from the same call on a fresh dictionary: fresh %s, %s %s'
+                          % (fn, j, plan, mode, {k_: fresh.get(k_) for k_ in keys}, mode, {k_: shared.get(k_) for k_ in keys}))
 
 
 def validate_repo_tests(ctx):
